@@ -18,14 +18,15 @@ def obligations(tier):
         assumes=["every 32-bit value"],
         claim="cdb_unpack(cdbmake_pack(u)) == u for all 2^32 values; pack writes exactly 4 little-endian bytes",
         expect_witnesses=["packed", "max"]))
-    CDBR = ["cdb_seek.c", "cdb_hash.c", "cdb_unpack.c"]
+    CDBR = ["cdb_hash.c", "cdb_unpack.c"]
+    seekprog = Prog("cdb_seek.c", cut=["cdb_bread"], link=True)
+    breadcut = ["cdb_bread -> contract: exactly len bytes delivered or -1 (proved on the real code by obligation cdb_bread)"]
     obls.append(Obl(
-        "cdb_seek_spec", "cdbseek.c", repo=CDBR, sysrename=["read", "lseek"], defines={"MODE": 0},
+        "cdb_seek_spec", "cdbseek.c", progs=[seekprog], repo=CDBR, sysrename=["read", "lseek"], defines={"MODE": 0}, cuts=breadcut,
         grid=[{"R": r} for r in (0, 1, 2)],
-        unwind={"cdb_seek": 5, "match": 2, "cdb_bread~while (len > 0)": 4, "cdb_bread~while ((r == -1)": 2, "cdb_hash": 5,
-                "vf_read": 9},
+        unwind={"cdb_seek": 5, "match~while": 2, "match~for": 4, "cdb_bread": 9, "cdb_hash": 5},
         unwind_default=6, timeout=900,
-        functions=["cdb_seek.c:cdb_seek", "cdb_seek.c:match", "cdb_seek.c:cdb_bread", "cdb_hash.c:cdb_hash", "cdb_unpack.c:cdb_unpack"],
+        functions=["cdb_seek.c:cdb_seek", "cdb_seek.c:match", "cdb_hash.c:cdb_hash", "cdb_unpack.c:cdb_unpack"],
         stubs=["read/lseek: abstract file - every byte is computed from the cdb format specification for R symbolic records "
                "(header entries, records, hash slots); short reads; one injected read/lseek failure"],
         assumes=["R <= 2 records, keys 0..2 bytes, data 0..2 bytes, query key 0..3 bytes, all byte values; hash tables of 2*count slots, "
@@ -34,14 +35,22 @@ def obligations(tier):
         claim="cdb_seek over any database that satisfies the format spec: 1 iff key present, with the data length and data position of "
               "the first record carrying it; 0 iff absent; -1 only after an I/O error",
         expect_witnesses=lambda p: ["absent", "io_error"] + (["found", "absent_but_hash_equal"] if p["R"] >= 1 else [])
-        + (["duplicate_key_first_wins", "found_after_probing_past_collision", "found_behind_equal_hash"] if p["R"] == 2 else [])))
+        + (["duplicate_key_first_wins", "found_after_probing_past_collision"] if p["R"] == 2 else [])))
     obls.append(Obl(
-        "cdb_seek_corrupt", "cdbseek.c", repo=CDBR, sysrename=["read", "lseek"], defines={"MODE": 1},
+        "cdb_bread", "cdbseek.c", repo=["cdb_seek.c"], sysrename=["read", "lseek"], defines={"MODE": 2},
+        unwind={"cdb_bread~while (len > 0)": 10, "cdb_bread~while ((r == -1)": 3, "vf_read": 9}, unwind_default=12, timeout=600,
+        functions=["cdb_seek.c:cdb_bread"],
+        stubs=["read: tape - short counts, one EINTR, EOF, hard error"],
+        assumes=["len 0..8, file has 0..8 bytes left"],
+        claim="cdb_bread returns 0 with exactly the next len bytes (assembled from short reads, EINTR retried) or -1 on error / premature EOF (EIO)",
+        expect_witnesses=["complete", "assembled_from_short_reads_and_eintr", "truncated", "read_error"]))
+    obls.append(Obl(
+        "cdb_seek_corrupt", "cdbseek.c", progs=[seekprog], repo=CDBR, sysrename=["read", "lseek"], defines={"MODE": 1}, cuts=breadcut,
         grid=[{"QL": 0, "NB": 40}, {"QL": 2, "NB": 40}, {"QL": 34, "NB": 64}],
-        unwind=lambda p: {"cdb_seek": p["NB"] // 8 + 2, "match~while": 3, "match~for": 33, "cdb_bread~while (len > 0)": 12,
-                          "cdb_bread~while ((r == -1)": 2, "cdb_hash": p["QL"] + 1, "vf_read": 33},
+        unwind=lambda p: dict({"cdb_seek": p["NB"] // 8 + 2, "cdb_bread": 33},
+                              **({"match~while": 3, "match~for": 33, "cdb_hash": p["QL"] + 1} if p["QL"] else {})),
         unwind_default=40, timeout=900,
-        functions=["cdb_seek.c:cdb_seek", "cdb_seek.c:match", "cdb_seek.c:cdb_bread"],
+        functions=["cdb_seek.c:cdb_seek", "cdb_seek.c:match"],
         stubs=["read: serves NB arbitrary bytes in the order they are read, then EOF; lseek: accepts any offset; one injected failure"],
         assumes=["file = any NB bytes (40/64), truncated anywhere; key block of exactly QL bytes"],
         outside=["corrupt files that keep the reader probing for more than NB/8 slots (lenhash is attacker-chosen: the loop is bounded by "
